@@ -14,7 +14,12 @@ import re
 from vlib import core
 from gen import c11gen as G
 
-SPANS_FIXED = False      # True once lexer.rs adds the header offset to the spans (see K_SPANS)
+# flipped by the coordinator when the corresponding `fix:` commit lands in /repo: the known_key is
+# then no longer accepted (a remaining deviation alarms) and the mirror is run with that repair on
+SPANS_FIXED = True      # lexer.rs: spans relative to the whole text (K_SPANS)
+TARGET_FIXED = True     # parser.rs:476 name_span next to a <target> (K_TARGET)
+PREFIX_FIXED = True     # parser.rs:641 unescape also behind a <A,B> prefix (K_PREFIX)
+DANGLING_FIXED = True   # parser.rs:616 trailing copy when the scan ends on a lone backslash (K_DANGLING)
 
 K_SPANS = "spans of a lex spec with a %grmtools header are relative to the text after the header"
 K_PREFIX = "lex escapes are not rewritten in a rule that has a start-state prefix"
@@ -100,40 +105,76 @@ def battery(rng, exp):
 
 
 # ------------------------------------------------------------------ part A: oracle on the implementation
+def fx_string():
+    return "".join("1" if b else "0" for b in (SPANS_FIXED, TARGET_FIXED, PREFIX_FIXED, DANGLING_FIXED))
+
+
 def needs_rewrite(rule):
     return rule["written"] != rule["meant"] or "\\b" in rule["written"]
 
 
-def oracle_case(ctx, rng, route, stats):
-    """one generated spec; returns (line, expectation record)"""
-    flags = G.gen_flags(rng)
-    hstyle = None if (route == "opt" and rng.random() < 0.5) or (route == "str" and not flags and rng.random() < 0.5) else 1
-    states, rules = G.gen_spec(rng, flags, prefix_escapes=rng.random() < 0.4)
-    hflags = flags if route == "str" else ({} if rng.random() < 0.5 else G.gen_flags(rng))   # opt: header flags are ignored
-    if route == "opt" and "awc" in hflags:
-        del hflags["awc"]
-    text, exp = G.render(rng, states, rules, dict(hflags, **({} if route == "str" else {})) if hstyle else {}, hstyle,
-                         comments=None if route == "str" else flags.get("awc", False))
-    if route == "opt" and flags.get("awc") is not True:
-        pass
-    bat = battery(rng, exp)
-    inputs = [b for b in bat if b][:0]
-    line = "src=%s f=%s w=%s wn=%s b=%s" % (hx(text), G.flag_str(flags), hlist([r["meant"] for r in exp["rules"]]),
-                                           ";".join("1" if r["name"] is not None else "0" for r in exp["rules"]), hlist(bat))
+def case_line(text, flags, route, exp, bat, inputs=None):
+    line = "src=%s f=%s w=%s wn=%s" % (hx(text), G.flag_str(flags), hlist([r["meant"] for r in exp["rules"]]),
+                                      ";".join("1" if r["name"] is not None else "0" for r in exp["rules"]))
+    if bat:
+        line += " b=%s" % hlist(bat)
+    if inputs:
+        line += " in=%s" % hlist(inputs)
     if route == "opt":
         line += " opt=%s" % G.flag_str(flags)
-    rec = {"text": text, "exp": exp, "flags": flags, "route": route, "line": line, "has_header": hstyle is not None}
-    return line, rec
+    return line
 
 
-def judge_oracle(ctx, rec, out):
-    """compare the implementation's observations with the abstract spec; report deviations.
-    returns the list of deviation classes (empty = conforms)"""
+def oracle_case(rng, route):
+    """one generated abstract spec, rendered; `flags` are the flags in force:
+    route "str": from_str, flags written in the %grmtools section;
+    route "opt": new_with_options(flags) — a %grmtools section, if any, carries OTHER flags that must be ignored"""
+    flags = G.gen_flags(rng)
+    if route == "str":
+        hstyle = None if (not flags and rng.random() < 0.5) else 1
+        hflags = flags
+    else:
+        hstyle = None if rng.random() < 0.5 else 1
+        hflags = {} if rng.random() < 0.5 else G.gen_flags(rng)
+        hflags.pop("awc", None)
+    states, rules = G.gen_spec(rng, flags, prefix_escapes=rng.random() < 0.4)
+    text, exp = G.render(rng, states, rules, hflags if hstyle else {}, hstyle, comments=flags.get("awc", False) and rng.random() < 0.7)
+    bat = battery(rng, exp)
+    return {"text": text, "exp": exp, "flags": flags, "route": route, "has_header": hstyle is not None,
+            "line": case_line(text, flags, route, exp, bat)}
+
+
+def corpus_cases():
+    """hand-written cases: the witnesses of the _refuted theorems and of DESIGN §9, replayed on the implementation"""
+    def rule(name, written, meant=None, pre=(), target=None, has_prefix=False):
+        return {"name": name, "pre": list(pre), "target": target, "written": written,
+                "meant": written if meant is None else meant, "has_prefix": has_prefix}
+    I = ("INITIAL", False)
+    cs = [
+        ("%grmtools{}\n%%\na 'ID'\n", {}, {"rules": [rule("ID", "a")], "states": [I]}),                       # spans_index_source_refuted
+        ("%x A\n%%\na <A>'TOK'\n", {}, {"rules": [rule("TOK", "a", target=(1, "R"))], "states": [I, ("A", True)]}),  # target_span_refuted
+        ("%%\n[a-z]+ 'ID'\n[ \\t]+ ;\n", {}, {"rules": [rule("ID", "[a-z]+"), rule(None, "[ \\t]+")], "states": [I]}),
+        ("%grmtools{posix_escapes}\n%x A\n%%\n<A>\\b 'Q'\n\\b 'R'\n", {"pe": True},
+         {"rules": [rule("Q", "\\b", "\\x08", pre=[1], has_prefix=True), rule("R", "\\b", "\\x08")], "states": [I, ("A", True)]}),
+        ("%s A\n%%\n<A>\\< 'LT'\n\\< 'LT2'\n", {},
+         {"rules": [rule("LT", "\\<", "\\x{3C}", pre=[1], has_prefix=True), rule("LT2", "\\<", "\\x{3C}")], "states": [I, ("A", False)]}),
+    ]
+    out = []
+    for text, flags, exp in cs:
+        bat = ["", "a", "<", "\x08", "ab", "a<", "b", " ", "\t", "az"]
+        out.append({"text": text, "exp": exp, "flags": flags, "route": "str", "has_header": text.startswith("%grmtools"),
+                    "line": case_line(text, flags, "str", exp, bat), "corpus": True})
+    return out
+
+
+def judge_oracle(rec, out):
+    """compare the implementation's observations with the abstract spec.
+    returns the list of deviations (class, known_key, detail); empty = conforms"""
     text, exp = rec["text"], rec["exp"]
     src_b = text.encode("utf-8")
     sec = sections(out)
-    devs = []        # (class, known_key, detail)
-    prefix_rw = any(r["has_prefix"] and needs_rewrite(r) for r in exp["rules"])
+    devs = []
+    prefix_rw = (not PREFIX_FIXED) and any(r["has_prefix"] and needs_rewrite(r) for r in exp["rules"])
     hdr = sec.get("HDR", "HDR E").split()
     pos = int(hdr[1]) if len(hdr) > 1 and hdr[1].isdigit() else 0
     if "OK" not in sec:
@@ -141,60 +182,66 @@ def judge_oracle(ctx, rec, out):
         key = None
         if "ERRS" in sec:
             errs = parse_errs(sec["ERRS"])
+            if len(errs) == 1 and errs[0][0] == "RegexError" and any(x.endswith(":0") for x in sec.get("WC", "").split()[1:]):
+                # the regex crate rejects what the generator meant under the flags in force (e.g. \101 with octal off):
+                # rejecting is the faithful answer
+                rec["rejected_as_meant"] = True
+                return devs
             if prefix_rw and len(errs) == 1 and errs[0][0] == "RegexError":
                 key = K_PREFIX
         devs.append(("valid specification rejected", key, what))
         return devs
     rules, states = parse_ok(sec["OK"])
-    # rules in order: names, start states, targets
     got = [(r["name"], r["pre"], r["target"]) for r in rules]
     want = [(r["name"], r["pre"], r["target"]) for r in exp["rules"]]
     if got != want:
-        devs.append(("rules (name, start states, target) differ", None, {"got": got, "want": want}))
+        devs.append(("rules (order, name, start states, target) differ", None, {"got": got, "want": want}))
     gs = [(s["id"], s["name"], s["excl"]) for s in states]
     ws = [(i, n, e) for i, (n, e) in enumerate(exp["states"])]
     if gs != ws:
-        devs.append(("start states differ", None, {"got": gs, "want": ws}))
+        devs.append(("declared start states (id, name, kind) differ", None, {"got": gs, "want": ws}))
     # spans index the text the user wrote
     span_items = [("rule %d" % k, r["span"], r["name"] or "", r["target"] is not None) for k, r in enumerate(rules)]
     span_items += [("state %d" % s["id"], s["span"], s["name"], False) for s in states]
     by_class = {}
     for what, (s, e), name, has_target in span_items:
         if what == "state 0":
-            # INITIAL is not written by the user: its span is the empty (0,0)
-            if (s, e) != (0, 0):
+            if (s, e) != (0, 0):      # INITIAL is not written by the user: the empty span (0,0)
                 by_class.setdefault(None, []).append((what, (s, e), None, name))
             continue
-        got = bsel(src_b, s, e)
-        if got == name:
+        got_t = bsel(src_b, s, e)
+        if got_t == name:
             continue
-        rel = bsel(src_b, s + pos, e + pos)
-        if pos > 0 and rel == name and not SPANS_FIXED:
+        if pos > 0 and not SPANS_FIXED and bsel(src_b, s + pos, e + pos) == name:
             key = K_SPANS
-        elif has_target and name != "" and (e - s) == len(name.encode("utf-8")):
+        elif has_target and not TARGET_FIXED and name != "" and (e - s) == len(name.encode("utf-8")):
             key = K_TARGET      # right length, wrong place: computed as if the name followed the space directly
         else:
             key = None
-        by_class.setdefault(key, []).append((what, (s, e), got, name))
+        by_class.setdefault(key, []).append((what, (s, e), got_t, name))
     for key, items in by_class.items():
         devs.append(("a span does not select the name it denotes in the source text", key,
                      {"header_end": pos, "wrong (what, span, selected, expected)": items[:4]}))
-    # regex equivalence
-    if "RX" in sec:
-        for item in sec["RX"].split()[1:]:
-            f = item.split(":")
-            k = int(f[0])
-            er = exp["rules"][k] if k < len(exp["rules"]) else None
-            key = K_PREFIX if (er and er["has_prefix"] and needs_rewrite(er)) else None
-            if f[1] == "WRITTENERR":
-                rec["generator_invalid"] = True       # the generator produced a regex the regex crate rejects: not a verdict
-            elif f[1] == "IMPLERR":
-                devs.append(("re_str does not compile although the written regex does", key, {"rule": k}))
-            elif int(f[2]) > 0:
-                devs.append(("re_str is not equivalent to the written regex", key,
-                             {"rule": k, "written": er and er["written"], "meant": er and er["meant"], "re_str": rules[k]["re"] if k < len(rules) else None,
-                              "battery_string": unhx(f[3][1:]) if len(f) > 3 else None, "impl_match_end": f[4] if len(f) > 4 else None,
-                              "written_match_end": f[5] if len(f) > 5 else None}))
+    # regex equivalence (regex crate, same flags, battery)
+    for item in sec.get("RX", "RX").split()[1:]:
+        f = item.split(":")
+        k = int(f[0])
+        er = exp["rules"][k] if k < len(exp["rules"]) else None
+        key = K_PREFIX if (er and er["has_prefix"] and needs_rewrite(er) and not PREFIX_FIXED) else None
+        if f[1] == "WRITTENERR":
+            rec["generator_invalid"] = True       # the generator produced a regex the regex crate rejects: no verdict
+        elif f[1] == "IMPLERR":
+            devs.append(("re_str does not compile although the written regex does", key, {"rule": k}))
+        elif int(f[2]) > 0:
+            devs.append(("re_str is not equivalent to the written regex", key,
+                         {"rule": k, "written": er and er["written"], "meant": er and er["meant"],
+                          "re_str": rules[k]["re"] if k < len(rules) else None,
+                          "battery_string": unhx(f[3][1:]) if len(f) > 3 else None,
+                          "impl_match_end": f[4] if len(f) > 4 else None, "written_match_end": f[5] if len(f) > 5 else None}))
+    # flags in force: lexing vs the reference lexer
+    if "LX" in sec and "RL" in sec and sec["LX"][3:] != sec["RL"][3:]:
+        key = K_PREFIX if prefix_rw else None
+        devs.append(("lexing differs from the reference lexer under the flags in force", key, {"impl": sec["LX"], "reference": sec["RL"]}))
     return devs
 
 
@@ -206,26 +253,224 @@ def report(ctx, rec, devs, out, what):
                        "replay_cmd": "echo '%s' | .work/target/release/c11" % rec["line"][:6000]}, known_key=key)
 
 
+# ------------------------------------------------------------------ flag probes
+def flag_probe_cases():
+    cases = []
+    for flag, rules, inputs in G.FLAG_PROBES:
+        for val in (True, False, None):
+            flags = {} if val is None else {flag: val}
+            for route in ("str", "opt"):
+                hdr = ""
+                if route == "str" and flags:
+                    hdr = "%grmtools{" + ("" if val else "!") + G.FLAG_NAMES[flag] + "}\n"
+                if route == "opt" and val is not None:
+                    # a section saying the opposite: new_with_options must ignore it
+                    hdr = "%grmtools{" + ("!" if val else "") + G.FLAG_NAMES[flag] + "}\n"
+                body = "%%\n" + "".join("%s %s\n" % (r, "'R%d'" % k if named else ";") for k, (r, named) in enumerate(rules))
+                exp = {"rules": [{"name": ("R%d" % k) if named else None, "pre": [], "target": None, "written": r,
+                                  "meant": ("\\x08" if (r == "\\b" and flags.get("pe")) else r), "has_prefix": False}
+                                 for k, (r, named) in enumerate(rules)], "states": [("INITIAL", False)]}
+                text = hdr + body
+                cases.append({"text": text, "exp": exp, "flags": flags, "route": route, "has_header": bool(hdr),
+                              "probe": flag, "line": case_line(text, flags, route, exp, [], inputs)})
+    return cases
+
+
+# ------------------------------------------------------------------ part B: implementation vs mirror
+# incl. the white-space class boundaries: FF, NEL, LRM, RLM, LS, PS are Pattern_White_Space; NBSP, U+3000 are Zs but not
+MUT_CHARS = list("<>'\"; \t\n\\%,+-é \x0c\x85/AINITIAL\x0b\r") + ["‎", "‏", " ", " ", " ", "　"]
+
+
+def mutate(rng, t):
+    b = list(t)
+    k = rng.random()
+    lines = t.split("\n")
+    if k < 0.15 and b:
+        del b[rng.randrange(len(b))]
+    elif k < 0.35:
+        b.insert(rng.randrange(len(b) + 1), rng.choice(MUT_CHARS))
+    elif k < 0.50 and b:
+        b = b[:rng.randrange(len(b))]                                     # truncation
+    elif k < 0.60 and b:
+        b[rng.randrange(len(b))] = rng.choice(MUT_CHARS)
+    elif k < 0.75 and len(lines) > 1:
+        i = rng.randrange(len(lines))                                     # duplicate a line (duplicate names / states)
+        lines.insert(rng.randrange(len(lines) + 1), lines[i])
+        return "\n".join(lines)
+    elif k < 0.82 and len(lines) > 1:
+        i = rng.randrange(len(lines))
+        lines[i] = rng.choice([" ", "\t", "\x0c"]) + lines[i]              # verbatim line
+        return "\n".join(lines)
+    elif k < 0.90:
+        return t + rng.choice(["%%\n", "%%\nfn main(){}\n", "\n%%", "%% x", "<", "\\"])
+    elif len(lines) > 2:
+        i, j = rng.randrange(len(lines)), rng.randrange(len(lines))      # swap lines (use before declaration, ...)
+        lines[i], lines[j] = lines[j], lines[i]
+        return "\n".join(lines)
+    return "".join(b)
+
+
+def mirror_line(text, out, opt_flags):
+    """the mirror's case for an implementation run: header end, flags and regex verdicts are inputs of the mirror"""
+    sec = sections(out)
+    h = sec.get("HDR", "HDR E").split()
+    if len(h) < 3 or h[2] == "E" or not h[1].isdigit():
+        return None
+    if opt_flags is None:
+        fl = dict(x.split(":") for x in h[2].split(",")) if h[2] != "-" else {}
+        awc, pe = fl.get("awc", "0"), fl.get("pe", "0")
+    else:
+        awc, pe = ("1" if opt_flags.get("awc") else "0"), ("1" if opt_flags.get("pe") else "0")
+    bad = "-"
+    if "ERRS" in sec:
+        es = parse_errs(sec["ERRS"])
+        if es and es[-1][0] == "RegexError":
+            off = es[-1][1][0][0]
+            bad = str(off)
+    return "src=%s pos=%s awc=%s pe=%s bad=%s fx=%s" % (hx(text), h[1], awc, pe, bad, fx_string())
+
+
 def run(ctx):
     ctx.gate = core.proof_gate("C11")
     for _ in ctx.gate["theorems"]:
         ctx.oblige(True)
     exe = core.build_harness("c11")
+    mexe = core.build_model("c11")
     rng = ctx.rng
-    # ---------------- A: oracle
-    recs = []
-    for i in range(ctx.n(3000, 30000)):
-        route = "str" if i % 3 else "opt"
-        line, rec = oracle_case(ctx, rng, route, None)
-        recs.append(rec)
+
+    # ---------------- A: oracle (abstract spec -> text -> implementation), corpus first
+    recs = corpus_cases()
+    for i in range(ctx.n(8000, 60000)):
+        recs.append(oracle_case(rng, "str" if i % 3 else "opt"))
+    probes = flag_probe_cases()
+    recs += probes
     outs = core.run_lines([exe], [r["line"] for r in recs])
-    nconf = 0
+    nconf = ninvalid = 0
     for rec, out in zip(recs, outs):
-        devs = judge_oracle(ctx, rec, out)
-        ctx.case(rec["line"], bool(rec["exp"]["rules"]) and any(needs_rewrite(r) for r in rec["exp"]["rules"]),
-                 {"text": rec["text"], "flags": rec["flags"], "route": rec["route"], "impl": out[:300]})
-        ctx.count("oracle_" + rec["route"] + ("_hdr" if rec["has_header"] else ""))
+        devs = judge_oracle(rec, out)
+        if rec.get("generator_invalid"):
+            ninvalid += 1
+            continue
+        nontriv = any(needs_rewrite(r) for r in rec["exp"]["rules"]) or rec["has_header"] or len(rec["exp"]["states"]) > 1
+        ctx.case("A " + rec["line"], nontriv, {"text": rec["text"], "flags_in_force": rec["flags"], "route": rec["route"],
+                                              "impl": out[:300]})
+        ctx.count("oracle_" + rec["route"] + ("_hdr" if rec["has_header"] else "") + ("_probe" if "probe" in rec else ""))
         if not devs:
             nconf += 1
         report(ctx, rec, devs, out, "oracle: abstract spec vs implementation")
+    # the two routes of a flag probe must lex alike
+    by_probe = {}
+    for rec, out in zip(recs, outs):
+        if "probe" in rec:
+            by_probe.setdefault((rec["probe"], G.flag_str(rec["flags"])), []).append((rec, sections(out).get("LX")))
+    nprobe_diff = 0
+    for key, lst in by_probe.items():
+        if len(set(x[1] for x in lst)) != 1:
+            nprobe_diff += 1
+            ctx.violation({"what": "a flag given in the %grmtools section and the same flag given through new_with_options lex differently",
+                           "flag": key, "runs": [(r["text"], lx) for r, lx in lst]})
+    ctx.oblige(nprobe_diff == 0, "flag routes agree")
     ctx.coverage["oracle_conforming"] = nconf
+    ctx.coverage["oracle_generator_invalid_skipped"] = ninvalid
+
+    # ---------------- A': regexes ending in a lone backslash must be rejected (the written regex is invalid)
+    dang = []
+    for _ in range(ctx.n(150, 1500)):
+        pre = "".join(rng.choice(["\\q", "\\\"", "a", "é", "\\é", "\\.", "x", "\\b", "\\ "]) for _ in range(rng.randint(0, 3)))
+        mid = rng.choice(["\\q", "\\\"", "\\é", "\\b", "\\ "]) if rng.random() < 0.7 else ""
+        tail = "".join(rng.choice(["a", "x", "é", "0"]) for _ in range(rng.randint(0, 2)))
+        re_w = (pre + mid + tail) or "a"
+        if re_w[0] in " <":
+            re_w = "a" + re_w
+        text = "%%\n" + re_w + "\\ 'T'\n"
+        dang.append({"text": text, "line": "src=%s" % hx(text), "re": re_w + "\\"})
+    douts = core.run_lines([exe], [d["line"] for d in dang])
+    for d, out in zip(dang, douts):
+        sec = sections(out)
+        ok = "ERRS" in sec and [e[0] for e in parse_errs(sec["ERRS"])] == ["RegexError"]
+        ctx.case("D " + d["line"], True, None)
+        ctx.count("dangling_backslash_" + ("rejected" if ok else "accepted"))
+        if not ok:
+            ctx.violation({"what": "a rule whose regex ends in a lone backslash (an invalid regex) is accepted; part of the text is dropped",
+                           "source_text": d["text"], "written_regex": d["re"], "impl_output": out[:600],
+                           "replay_cmd": "echo '%s' | .work/target/release/c11" % d["line"]},
+                          known_key=None if DANGLING_FIXED else K_DANGLING)
+
+    # ---------------- observations that are not verdicts (coordinator: the property text does not clearly demand them)
+    obs = [("%x A  B\n%%\na 'T'\n", "two blanks between start-state names"), ("%%\n\\B 'T'\n", "\\B (documented as supported) is rewritten to B")]
+    oouts = core.run_lines([exe], ["src=%s" % hx(t) for t, _ in obs])
+    ctx.coverage["observations_not_alarmed"] = [{"text": t, "what": w, "impl": o[:200]} for (t, w), o in zip(obs, oouts)]
+
+    # ---------------- B: implementation vs mirror on generated, mutated and truncated sources
+    srcs = []          # (text, opt flags | None)
+    for rec in recs[:ctx.n(5000, 40000)]:
+        opt = rec["flags"] if rec["route"] == "opt" else None
+        srcs.append((rec["text"], opt))
+        for _ in range(ctx.n(3, 4)):
+            srcs.append((mutate(rng, rec["text"]), opt))
+    for d in dang:
+        srcs.append((d["text"], None))
+    # every truncation of a few sources
+    for rec in recs[5:5 + ctx.n(25, 120)]:
+        t = rec["text"]
+        for k in range(len(t)):
+            srcs.append((t[:k], None))
+    srcs = [(t, o) for t, o in srcs if "\x00" not in t]
+    ilines = ["src=%s" % hx(t) + ("" if o is None else " opt=%s" % G.flag_str(o)) for t, o in srcs]
+    iouts = core.run_lines([exe], ilines)
+    mlines, idx = [], []
+    nskip_hdr = 0
+    for k, ((t, o), out) in enumerate(zip(srcs, iouts)):
+        ml = mirror_line(t, out, o)
+        if ml is None:
+            nskip_hdr += 1       # header errors / header panics belong to the header mirror (C12)
+            if o is not None and "PANIC" in out:
+                ctx.count("observation: new_with_options panics (unwrap) on a malformed %grmtools section [C12]")
+            continue
+        mlines.append(ml)
+        idx.append(k)
+    mouts = core.run_lines([mexe], mlines)
+    ndiff = 0
+    kinds = {}
+    for k, ml, mo in zip(idx, mlines, mouts):
+        sec = sections(iouts[k])
+        got = (sec.get("OK") or sec.get("ERRS") or sec.get("PANIC") or iouts[k]).strip()
+        if got.startswith("PANIC"):
+            got = "PANIC"
+        cls = got.split()[0]
+        if cls == "ERRS":
+            for e in parse_errs(got):
+                kinds[e[0]] = kinds.get(e[0], 0) + 1
+        ctx.case("B " + ml, cls == "ERRS" or " ; r " in got, None)
+        ctx.count("mirror_" + cls)
+        if got != mo.strip():
+            ndiff += 1
+            t, o = srcs[k]
+            # a difference is first of all a broken correspondence; an impl panic is directly a witness (C12)
+            ctx.violation({"what": "implementation and mirror disagree", "source_text": t, "opt": o, "impl": got[:800], "mirror": mo[:800],
+                           "note": "theorems of Properties/C11.v speak about the mirror; they no longer transfer to the code on this input",
+                           "replay_cmd": "echo '%s' | .work/target/release/c11 ; echo '%s' | .work/ocaml/c11/gvm_c11" % (ilines[k][:3000], ml[:3000])},
+                          no_input=(cls != "PANIC"))
+    ctx.oblige(ndiff == 0, "correspondence")
+    ctx.coverage["mirror_compared"] = len(idx)
+    ctx.coverage["mirror_skipped_header_error"] = nskip_hdr
+    ctx.coverage["mirror_error_kinds"] = kinds
+    ctx.coverage["known_keys"] = KNOWN_KEYS
+    ctx.coverage["rule"] = (
+        "A: seeded random abstract lexer specs (0-3 start states incl. exclusive, 1-5 rules with names/skip forms, <A,B> prefixes, "
+        "<S>/<+S>/<-S> targets, regex atoms: literals, multi-byte chars, lex escapes of non-special chars incl. multi-byte and space, regex "
+        "escapes, \\b, classes, bare and trailing-escaped spaces) x renderings (with/without %grmtools section with random flags, "
+        "'n'/\"n\"/;/''/\"\" forms, blanks/tabs, LF/CRLF/VT/CR/U+2028 separators, // comments when allowed, closing %%) x route "
+        "(from_str / new_with_options with a contradicting section); judged against the abstract spec (rules, states, span texts, "
+        "regex equivalence on a battery of ~90 strings per case, flag probes lexed against a reference lexer). "
+        "B: the same texts plus 3 mutations each (char delete/insert/replace, truncation, duplicated/swapped/indented lines, "
+        "routine sections) and every truncation of some, implementation vs extracted mirror transcript equality. "
+        "non-trivial = A: needs escape rewriting or has a header or start states; B: the result has rules or errors; distinct by case line")
+    ctx.coverage["exhaustive"] = False
+    ctx.assumptions += [
+        "the %grmtools section parser is not mirrored here (theories/C12): its end position and the flags it yields are inputs of the mirror, taken from the public GrmtoolsSectionParser/LexFlags::try_from",
+        "Rule::new (regex compilation) is opaque to the mirror: which rule line fails to compile is an input of the mirror (taken from the implementation's RegexError); regex semantics are decided by the regex crate in the harness",
+        "'what the written regex denotes' is the generator's own definition of lex escaping (gen/c11gen.py), compiled by the regex crate with the flags in force and compared on a finite battery",
+        "effective flags are observed through behaviour (lex_flags() is pub(crate)); size/nest limits are not probed",
+        "StorageT::try_from(rules_len) (documented panic past u32::MAX rules) is not mirrored (C20)",
+    ]
